@@ -731,8 +731,8 @@ func init() {
 	core.Register(&core.Prop{
 		ID:        "C04",
 		Technique: "hostile-input monitor in child processes: exhaustive short strings, truncations and seeded mutations of valid encodings against ~45 (target type, configuration) pairs; panic/fault capture, guard-page read-only inputs with exact capacity, CPU-time meter and watchdog, allocation meter, spare-capacity differential; ASan lane in thorough",
-		Rule: "targets: one (type, configuration) pair per codec family (scalars, every slice wrapper, maps incl. struct keys and proto maps, times x2, null.*, JSON any, BigQuery time, recursive and mutually recursive structs, index 0 and 100000, plenc's own Descriptor). " +
-			"inputs: ALL strings of length <= 3 (thorough: 4) over a 24-symbol alphabet of tag / length / continuation bytes, every prefix of 24 valid encodings per target, and seeded mutants (truncate, bit flip, interesting byte, huge/over-long varints replacing or inserted, duplicate/delete span, splice, wire-type flip, random tail; every fourth block from another target's encodings). " +
+		Rule: "targets: one (type, configuration) pair per codec family (scalars, every slice wrapper, maps incl. struct keys and proto maps, times x2, null.*, JSON any, BigQuery time, recursive and mutually recursive structs, index 0 and 100000, plenc's own Descriptor, 64 KiB values and 1120-byte keys in maps, slices and pointers). " +
+			"inputs: ALL strings of length <= 3 (thorough: 4) over a 24-symbol alphabet of tag / length / continuation bytes, every prefix (and the whole) of 24 valid encodings per target and of crafted map entries no encoder writes (key only, value only, empty, duplicated key; both map forms), and seeded mutants (truncate, bit flip, interesting byte, huge/over-long varints replacing or inserted, duplicate/delete span, splice, wire-type flip, random tail; every fourth block from another target's encodings). " +
 			"Each input is decoded by Unmarshal and (non-recursive targets) Descriptor.Read - through the target's descriptor and through another version of it that has lost fields at every depth but kept its type names - from a PROT_READ mapping whose end abuts a PROT_NONE page; one input in 8 is decoded again from heap buffers with spare capacity filled with two different patterns. " +
 			"Verdict per call: no panic/fault, thread CPU <= 2 s (watchdog: 4 s of process CPU without returning), allocation <= 64 KiB + 64 x S_T x (len+16) where S_T is the largest element/bucket size reachable in the target type. distinct = distinct (target, mutant) pairs",
 		Assume:     []string{"allocation is runtime.MemStats.TotalAlloc read around the call in a single-goroutine child", "the watchdog decides on process CPU time, not wall time"},
